@@ -90,7 +90,7 @@ R.contract(
         "satisfies_the_refinement": "refinedby(self, result)",
         "no_deeper_than_what_rec_builds": "vdepth(result) <= global_context.decider.max_depth - context.depth",
     },
-    raises={"SynthesisException": "True", "GeneticEngineError": "True"},
+    raises={"SynthesisException": "handlers_may_fail()", "GeneticEngineError": "handlers_may_fail()"},
     modifies=["random.*", "global_context.decider.random.*"],
     caller_env=["global_context", "context"],
     verify=False,
@@ -106,6 +106,7 @@ CN_REQ = {
     "feasible": "gdist(global_context.grammar, starting_symbol) <= global_context.decider.max_depth - context.depth",
     "decider_uses_this_grammar": "same(global_context.decider.grammar, global_context.grammar)",
     "no_initial_values": "initial_values is None or emptydict(initial_values)",
+    "limit_below_unproductive_marker": "global_context.decider.max_depth - context.depth < 1000000",
 }
 CN_ENS = {
     "welltyped": "welltyped(result, starting_symbol)",
@@ -121,7 +122,7 @@ R.contract(
     returns="~Val",
     requires=dict(CN_REQ),
     ensures=dict(CN_ENS),
-    raises={"GeneticEngineError": "True", "SynthesisException": "True"},
+    raises={"GeneticEngineError": "handlers_may_fail()", "SynthesisException": "handlers_may_fail()"},
     loops={
         # list elements
         0: Loop(invariants={
@@ -132,6 +133,8 @@ R.contract(
         1: Loop(invariants={
             "candidates_are_productions": "forall(0, len(compatible_productions), lambda j: exists(0, len(global_context.grammar.alternatives[starting_symbol]), "
             "lambda m: compatible_productions[j] == global_context.grammar.alternatives[starting_symbol][m]))",
+            "all_productions_until_a_refinement_failed": "handlers_may_fail() or (len(compatible_productions) == len(global_context.grammar.alternatives[starting_symbol]) and "
+            "forall(0, len(compatible_productions), lambda j: compatible_productions[j] == global_context.grammar.alternatives[starting_symbol][j]))",
         }, modifies=["compatible_productions[]"] + CN_MOD),
         # fields of a concrete production
         2: Loop(invariants={
@@ -142,5 +145,31 @@ R.contract(
     },
     locals={"nli": "list[~Val]", "args": "list[~Val]", "dependent_values": "dict[~Str,~Val]", "dependent_vals": "dict[~Str,~Val]", "initial_vals": "dict[~Str,~Val]"},
     modifies=list(CN_MOD),
+    props=["C01", "C02", "C03", "C07", "C10"],
+)
+
+# ---- the synthesis entry point --------------------------------------------------------------------------------------
+RN_REQ = {
+    "the_grammar": "same(grammar, thegrammar())",
+    "grammar_invariant": "g_ok(grammar) and not grammar.expansion_depthing",
+    "type_registered": "gdist_defined(grammar, starting_symbol)",
+    "feasible": "gdist(grammar, starting_symbol) <= decider.max_depth",
+    "decider_uses_this_grammar": "same(decider.grammar, grammar)",
+    "limit_below_unproductive_marker": "decider.max_depth < 1000000",
+}
+R.contract(
+    "random_node",
+    file=TRB,
+    params=dict(random="RandomSource", grammar="Grammar", starting_symbol="~Type", decider="MaxDepthDecider"),
+    returns="~Val",
+    requires=dict(RN_REQ),
+    ensures={
+        "welltyped": "welltyped(result, starting_symbol)",
+        "within_depth": "vdepth(result) <= decider.max_depth",
+    },
+    raises={"GeneticEngineError": "handlers_may_fail()", "SynthesisException": "handlers_may_fail()"},
+    modifies=["random.*", "decider.random.*", "decider.expanding"],
     props=["C01", "C03", "C07", "C10"],
+    note="synthesis entry point with a depth-limited decider (grow / full / PI-grow): a well-typed value of the requested symbol no deeper than "
+    "the decider's limit; draws come from `random` and from the decider's own source only; the grammar is not in the frame (C10)",
 )
